@@ -23,6 +23,7 @@ layout keys (all optional except bits/events):
   stext     list of (k, v) for a supplemental TEXT segment, or None
   stext_pos 'after' (default: after DATA) | 'before'
   stext_raw  the supplemental segment as a raw string (overrides stext; may be ill-formed)
+  stext_zero_length  with an empty stext_raw: declare a window of no bytes (end = begin - 1) instead of offsets 0, 0
   analysis  list of (k, v) or None; analysis_pos 'after'; analysis_offsets 'header' | 'text'
   tot, par  overrides of the declared $TOT / $PAR (for corruption)
 """
@@ -151,9 +152,11 @@ def _build(layout):
             text_end = pos + tlen - 1
             segs.append((pos, None))
             pos = text_end + 1 + pad
-        elif seg == 'stext' and sbytes:
+        elif seg == 'stext' and (sbytes or layout.get('stext_zero_length')):
+            # (stext_zero_length: a declared supplemental window holding no byte at all, end = begin - 1)
             stext_begin, stext_end = pos, pos + len(sbytes) - 1
-            segs.append((pos, sbytes))
+            if sbytes:
+                segs.append((pos, sbytes))
             pos = stext_end + 1 + pad
         elif seg == 'data':
             data_begin = pos
